@@ -579,7 +579,7 @@ def worlds_stream(tier, rng):
     yield world_lin(rng)
     yield world_pair(rng, third=True)
     yield world_twins(rng)
-    k = 150 if quick else 1500
+    k = 260 if quick else 2500
     for _ in range(k):
         r = rng.random()
         if r < 0.1:
@@ -636,11 +636,13 @@ class Single(_Base):
                 continue
             nds = len(cw["ds"])
             pairs = [(d, t) for d in range(nds) for t in range(nds)]
+            table = deriv_table(cw)
             for d, t in pairs:
                 # the whole reference grid, then seeded bounds
                 full = [full_bound(s) for s in cw["ds"][t]["shape"]]
                 yield [cw, ["req", d, full, t, ["c", d, 0], True, None]]
-                for _ in range(3 if quick else 6):
+                underivable = d != t and any(e[0] == t and e[1] == d and "missing" in json.dumps(e[3]) for e in table)
+                for _ in range(1 if underivable else (4 if quick else 8)):
                     yield [cw, rand_req(cw, rng, None, (d, t))]
 
     def run_impl(self, case):
@@ -923,8 +925,15 @@ class Img(_Base):
             for _ in range(3 if quick else 6):
                 ref = rng.choice([i for i in range(nds) if len(cw["ds"][i]["shape"]) >= 2])
                 rn = len(cw["ds"][ref]["shape"])
-                x, y = rng.sample(range(rn), 2)
                 d = rng.randrange(nds)
+                x, y = rng.sample(range(rn), 2)
+                if d != ref and rng.random() < 0.8:
+                    # prefer axes of the reference that the layer's data really depends on
+                    # (otherwise broadcast=False makes the request an IncompatibleDataException)
+                    used = sorted({int(m) for e in deriv_table(cw) if e[0] == ref and e[1] == d
+                                   for m in __import__("re").findall(r'\["p", (\d+)\]', json.dumps(e[3]))})
+                    if len(used) >= 2:
+                        x, y = rng.sample(used, 2)
                 if rng.random() < 0.6:
                     what = ["c", d, rng.randrange(len(cw["ds"][d]["comps"]))]
                 else:
@@ -952,7 +961,7 @@ class Img(_Base):
 
     def worlds(self, tier, rng):
         quick = tier == "quick"
-        for _ in range(70 if quick else 700):
+        for _ in range(160 if quick else 1500):
             r = rng.random()
             if r < 0.15:
                 yield world_self(rng, rng.randint(2, 3))
